@@ -1,39 +1,43 @@
-(** generic tactic for the generated [<m>_sok] lemmas (Gen/PropLibSpec.v): the term a method returns
-    stays inside C02's propositional fragment when its arguments do *)
+(** generic tactics for the generated [<m>_gok] / [<m>_replays] lemmas (Gen/PropLibSpec.v): the thunk a
+    method returns satisfies the checker-side conditions of C02 when its arguments do *)
 From Coq Require Import NArith List Bool.
 From Pi2 Require Import ML.Syntax ML.Subst Lib.Term Lib.TermFacts Lib.Match Lib.Embed.
 Import ListNotations.
 Open Scope N_scope.
 
-Create HintDb plsok.
+Create HintDb plgok.
 
-Lemma forallb_pok_nil : forallb pok [] = true. Proof. reflexivity. Qed.
-Lemma forallb_pok_cons : forall a l, pok a = true -> forallb pok l = true -> forallb pok (a :: l) = true.
+Lemma forallb_pwf_nil : forallb pwf [] = true. Proof. reflexivity. Qed.
+Lemma forallb_pwf_cons : forall a l, pwf a = true -> forallb pwf l = true -> forallb pwf (a :: l) = true.
 Proof. intros a l H1 H2. cbn. now rewrite H1, H2. Qed.
 
-#[global] Hint Resolve prop1_sok prop2_sok prop3_sok mp_sok guard_sok none_sok pok_imp pok_bot pok_phi
-  opok_conc opok_some dynamic_inst_sok dynamic_inst_build_sok forallb_pok_nil forallb_pok_cons : plsok.
-#[global] Hint Extern 1 (sok (load_ax_by_index _ _)) =>
-  apply load_ax_by_index_sok; vm_compute; reflexivity : plsok.
-#[global] Hint Extern 1 (sok (bindc (extract_imp _) _)) =>
-  apply bindc_imp_sok; [ | intros; cbn beta iota zeta ] : plsok.
-#[global] Hint Extern 1 (sok (bindc (match_neg _) _)) =>
-  apply bindc_neg_sok; [ | intros; cbn beta iota zeta ] : plsok.
-#[global] Hint Extern 1 (sok (bindc (match_and _) _)) =>
-  apply bindc_and_sok; [ | intros; cbn beta iota zeta ] : plsok.
-#[global] Hint Extern 1 (sok (bindc (match_or _) _)) =>
-  apply bindc_or_sok; [ | intros; cbn beta iota zeta ] : plsok.
-#[global] Hint Extern 1 (sok (bindc (match_equiv _) _)) =>
-  apply bindc_equiv_sok; [ | intros; cbn beta iota zeta ] : plsok.
-#[global] Hint Extern 1 (sok (bindc (conc _) _)) =>
-  apply bindc_conc_sok; [ | intros; cbn beta iota zeta ] : plsok.
-#[global] Hint Extern 1 (sok (bindc (match_single _ _ []) _)) =>
-  apply bindc_match_sok; [ | intros; cbn beta iota zeta ] : plsok.
+#[global] Hint Resolve prop1_gok prop2_gok prop3_gok mp_gok gen_gok guard_gok none_gok pwf_imp pwf_bot pwf_phi pwf_ex
+  opwf_conc opwf_some dynamic_inst_gok dynamic_inst_build_gok forallb_pwf_nil forallb_pwf_cons
+  prop1_csimple prop2_csimple prop3_csimple ax_incl_nil ax_incl_refl : plgok.
+#[global] Hint Extern 1 (gok _ (load_ax_by_index _ _)) =>
+  apply load_ax_by_index_gok; [ | vm_compute; reflexivity ] : plgok.
+#[global] Hint Extern 1 (gok _ (load_ax _ _)) =>
+  apply load_ax_gok; [ | vm_compute; reflexivity ] : plgok.
+#[global] Hint Extern 3 (csimple _) => vm_compute; reflexivity : plgok.
+#[global] Hint Extern 1 (gok _ (bindc (extract_imp _) _)) =>
+  apply bindc_imp_gok; [ | intros; cbn beta iota zeta ] : plgok.
+#[global] Hint Extern 1 (gok _ (bindc (match_neg _) _)) =>
+  apply bindc_neg_gok; [ | intros; cbn beta iota zeta ] : plgok.
+#[global] Hint Extern 1 (gok _ (bindc (match_and _) _)) =>
+  apply bindc_and_gok; [ | intros; cbn beta iota zeta ] : plgok.
+#[global] Hint Extern 1 (gok _ (bindc (match_or _) _)) =>
+  apply bindc_or_gok; [ | intros; cbn beta iota zeta ] : plgok.
+#[global] Hint Extern 1 (gok _ (bindc (match_equiv _) _)) =>
+  apply bindc_equiv_gok; [ | intros; cbn beta iota zeta ] : plgok.
+#[global] Hint Extern 1 (gok _ (bindc (conc _) _)) =>
+  eapply bindc_conc_gok; [ | intros; cbn beta iota zeta ] : plgok.
+#[global] Hint Extern 1 (gok _ (bindc (match_single _ _ []) _)) =>
+  apply bindc_match_gok; [ | intros; cbn beta iota zeta ] : plgok.
 
-Ltac lib_sok m :=
+Ltac lib_gok m :=
   intros; unfold m; autounfold with plunf; cbn zeta;
-  solve [ eauto 200 with plsok nocore ].
+  solve [ eauto 200 with plgok nocore ].
 
-Ltac lib_replays spec wf sokl :=
+Ltac lib_replays spec gokl :=
   intros; apply replays_full;
-  [ first [ eassumption | eapply spec; eassumption ] | apply wf; assumption | apply sokl; assumption ].
+  [ first [ eassumption | eapply spec; eassumption ] | apply gokl; assumption ].
